@@ -315,6 +315,9 @@ func c26GCM(b []byte) {
 	seq := verifrt.U32()
 	key := verifrt.Bytes(4)
 	iv0 := verifrt.Bytes(12)
+	// counter carries are C25's subject (all IVs there); here the last IV byte is not 0xff so
+	// that incIV does not multiply the accepted paths by nine
+	verifrt.Assume(iv0[11] != 0xff)
 	aead := &c25AEAD{key: key}
 	pc := &gcmCipher{aead: aead, iv: append([]byte(nil), iv0...)}
 	if c26ForceLen != 0 && n >= 4 {
@@ -571,6 +574,81 @@ func Verif_C26_CBC8() {
 	n := verifrt.Choose(0, 48)
 	verifrt.MakeLimit(n + 2)
 	c26CBC(8, verifrt.Bytes(n))
+}
+
+// ---------- thorough tier, grouped (one engine process per group; bounds sized so that the
+// whole tier fits the 30 min budget on the loaded machine) ----------
+
+// Verif_C26_TStreamA: none cipher and arbitrary keystream without MAC (stream length 0..32),
+// truncated MAC (0..36).
+func Verif_C26_TStreamA() {
+	switch verifrt.Choose(0, 2) {
+	case 0:
+		c26StreamN(c26None, 0, 32)
+	case 1:
+		c26StreamN(c25NoMAC, 0, 32)
+	case 2:
+		c26StreamN(c25EAMTrunc, 0, 36)
+	}
+}
+
+// Verif_C26_TStreamB: encrypt-and-MAC (stream length 0..36) and EtM (0..44).
+func Verif_C26_TStreamB() {
+	if verifrt.Choose(0, 1) == 0 {
+		c26StreamN(c25EAM, 0, 36)
+	} else {
+		c26StreamN(c25ETM, 0, 44)
+	}
+}
+
+// Verif_C26_TBig: 8-byte stream with every declared length up to an allocation of 250 bytes
+// (stream E&M / EtM, gcm) or 400 bytes (chacha: allocates above 256 only), and the maxPacket
+// boundary per mode.
+func Verif_C26_TBig() {
+	switch verifrt.Choose(0, 4) {
+	case 0:
+		verifrt.MakeLimit(250)
+		c26Stream(c25EAM, verifrt.Bytes(8))
+	case 1:
+		verifrt.MakeLimit(250)
+		c26Stream(c25ETM, verifrt.Bytes(8))
+	case 2:
+		verifrt.MakeLimit(250)
+		c26GCM(verifrt.Bytes(8))
+	case 3:
+		verifrt.MakeLimit(400)
+		c26ChaCha(verifrt.Bytes(8))
+	case 4:
+		Verif_C26_MaxPacket()
+	}
+}
+
+// Verif_C26_TGCM: gcmCipher, stream length 0..44.
+func Verif_C26_TGCM() {
+	n := verifrt.Choose(0, 44)
+	verifrt.MakeLimit(n + 2)
+	c26GCM(verifrt.Bytes(n))
+}
+
+// Verif_C26_TChaCha: chacha20-poly1305, stream length 0..28.
+func Verif_C26_TChaCha() {
+	n := verifrt.Choose(0, 28)
+	verifrt.MakeLimit(n + 2)
+	c26ChaCha(verifrt.Bytes(n))
+}
+
+// Verif_C26_TCBC8: cbc, 8-byte block, stream length 0..44.
+func Verif_C26_TCBC8() {
+	n := verifrt.Choose(0, 44)
+	verifrt.MakeLimit(n + 2)
+	c26CBC(8, verifrt.Bytes(n))
+}
+
+// Verif_C26_TCBC16: cbc, 16-byte block, stream length 0..52.
+func Verif_C26_TCBC16() {
+	n := verifrt.Choose(0, 52)
+	verifrt.MakeLimit(n + 2)
+	c26CBC(16, verifrt.Bytes(n))
 }
 
 // ---------- quick tier (few engine processes) ----------
